@@ -341,6 +341,21 @@ CLAIMED["C31"] = (
     "DESIGN.md section 6 C31",
 )
 
+CLAIMED["C23"] = (
+    "refine_grid_1d (ratios 2-4), remesh_1d, refine_triangle_grid and extrude_grid (0d->1d, 1d->2d) are executed on "
+    "grids with SYMBOLIC node coordinates / extrusion layers; the geometry of the new grids comes from the real "
+    "compute_geometry on the symbolic nodes. The solvers decide for all coordinates: cell counts, total measure "
+    "preserved (times the extrusion height), positive measure of every new cell, every new 1-d cell inside exactly "
+    "one old cell and the children filling it, the returned parent / cell maps assigning every new cell to exactly "
+    "one parent whose measure the children sum to, and child centres inside the parent.",
+    "1-d grids with 2-4 cells on the x-axis; one or two triangles with vertices displaced by <= 1/8; 2-3 extrusion "
+    "layers; structured_refinement, the md-grid refinement drivers, 2d->3d extrusion and oblique embeddings are "
+    "outside. Inequalities with a margin are discharged by interval branch-and-bound, the rest by z3.",
+    "symbolic execution of the real Python source over real terms + SMT (z3 nlsat) + interval branch-and-bound for "
+    "inequalities",
+    "DESIGN.md section 6 C23",
+)
+
 CLAIMED["C27"] = (
     "SubdomainProjections (cell and face restriction / prolongation), MortarProjections (all eight maps and the "
     "side-sign matrix) and BoundaryProjection are built by the real code for ordered lists (all orders and sub-"
